@@ -13,6 +13,7 @@ package c06
 import (
 	"bytes"
 	"context"
+	"errors"
 	"fmt"
 	"os"
 	"runtime"
@@ -65,6 +66,7 @@ type Case struct {
 
 	Perturb []int `json:"perturb,omitempty"` // hook-site perturbation vector (sched.Perturb)
 	Rounds  int   `json:"rounds,omitempty"`  // storage: passes over the chunk list (retries)
+	IndexK  int   `json:"index_k,omitempty"` // index: the index output accepts this many bytes, then fails (-1: /dev/full through LocalIndexStore)
 	Retry   int   `json:"retry,omitempty"`   // cli: --error-retry value
 }
 
@@ -177,7 +179,10 @@ func genCase(t *rapid.T) Case {
 		return genCLI(t)
 	}
 	var c Case
-	c.Op = rapid.SampledFrom([]string{"chop", "chop", "chop", "make", "make", "copy", "copy", "stream", "stream", "storage"}).Draw(t, "op")
+	c.Op = rapid.SampledFrom([]string{"chop", "chop", "chop", "make", "make", "copy", "copy", "stream", "stream", "storage", "index"}).Draw(t, "op")
+	if c.Op == "index" {
+		c.IndexK = rapid.IntRange(-1, 6000).Draw(t, "indexk")
+	}
 	if rapid.Bool().Draw(t, "nsmall") {
 		c.N = rapid.SampledFrom([]int{1, 2, 2, 3, 4, 4, 8, 16}).Draw(t, "n")
 	} else {
@@ -351,6 +356,9 @@ func clamp(v, lo, hi int) int {
 func run(c Case) (o hx.Outcome) {
 	if strings.HasPrefix(c.Op, "cli-") {
 		return runCLI(c)
+	}
+	if c.Op == "index" {
+		return runIndexWrite(c)
 	}
 	blob := gen.Expand(c.Pieces)
 	sz := c.Sizes
@@ -711,7 +719,7 @@ var spec = &hx.Spec[Case]{
 		"schedules are sampled by perturbation, not enumerated",
 		"CLI tier: plain HTTP on loopback, compressed chunks, LocalStore backing directory; retry policy modelled only in its unambiguous zone",
 	},
-	Required: []string{"op:make", "op:chop", "op:copy", "op:stream", "op:storage", "fault:has", "fault:store", "fault:get", "delivered>=1", "delivered>=2",
+	Required: []string{"op:make", "op:chop", "op:copy", "op:stream", "op:storage", "op:index", "index:write-fault-delivered", "index:fault-in-last-buffered-part", "index:dev-full", "fault:has", "fault:store", "fault:get", "delivered>=1", "delivered>=2",
 		"scheduled-not-delivered", "dup-race-possible", "same-id-asked-twice", "flip", "flip-in-duplicated-chunk", "prefilled", "prefilled-all", "src-missing", "success", "error-returned",
 		"perturbed:chop.job", "perturbed:copy.job", "perturbed:chunkstream.job", "storage:retry-after-failure", "empty-index"},
 	Gen:      genCase,
@@ -749,6 +757,26 @@ func enumBlobs() []Case {
 // TestEnum: every single failing call number, for every call kind, operation and several n.
 // The (input, n, operation) slots are dealt round-robin to the shards of a run; every shard
 // enumerates its slots completely, so the merged evidence covers the whole grid.
+// TestEnumIndex: every byte count at which the index output can fail, for each enumeration input.
+func TestEnumIndex(t *testing.T) {
+	if hx.Shard() != 0 {
+		t.Skip()
+	}
+	n := 0
+	for _, b := range enumBlobs() {
+		blob := gen.Expand(b.Pieces)
+		size := 48 + 16 + 40*len(ref.Chunk(blob, b.Sizes.Min, b.Sizes.Avg, b.Sizes.Max, false)) + 40
+		for k := -1; k <= size; k++ {
+			n++
+			if !hx.Case(t, spec, Case{Op: "index", Pieces: b.Pieces, Sizes: b.Sizes, IndexK: k}) {
+				return
+			}
+		}
+	}
+	hx.AddNote("enum_index_write_points", n)
+	hx.Exhaustive("every byte count at which the index output fails, for the enumeration inputs")
+}
+
 func TestEnum(t *testing.T) {
 	vecs := [][]int{nil, {1, 0, 2, 0, 0, 3}, {0, 0, 2, 0, 0, 0, 1, 0, 0, 0, 0, 0, 4}} // the last one sleeps at every 13th site
 	cases, slot := 0, 0
@@ -907,3 +935,84 @@ func TestSelf(t *testing.T) {
 }
 
 func TestProp(t *testing.T) { hx.Prop(t, spec) }
+
+// failAfter accepts n bytes and then fails every write (a full disk, a quota, a closed pipe).
+type failAfter struct {
+	n       int
+	written int
+	failed  bool
+}
+
+func (f *failAfter) Write(p []byte) (int, error) {
+	room := f.n - f.written
+	if room >= len(p) {
+		f.written += len(p)
+		return len(p), nil
+	}
+	if room < 0 {
+		room = 0
+	}
+	f.written += room
+	f.failed = true
+	return room, errors.New("injected: no space left on the index output")
+}
+
+// runIndexWrite: the last store operation of make / tar -i is writing the index. If the index
+// output fails at any byte the operation must report it, and an index it reports as written
+// must be complete.
+func runIndexWrite(c Case) (o hx.Outcome) {
+	blob := gen.Expand(c.Pieces)
+	sz := c.Sizes
+	if sz.Min < 48 || sz.Avg < sz.Min || sz.Max <= sz.Avg {
+		sz = gen.Sizes{Min: 48, Avg: 64, Max: 256}
+	}
+	idx := dx.BuildIndex(blob, ref.Chunk(blob, sz.Min, sz.Avg, sz.Max, false), sz, false)
+	full := ref.EncodeIndex(ref.IndexFile{Flags: idx.Index.FeatureFlags, Min: sz.Min, Avg: sz.Avg, Max: sz.Max, Items: func() []ref.IndexItem {
+		var it []ref.IndexItem
+		for _, ch := range idx.Chunks {
+			it = append(it, ref.IndexItem{End: ch.Start + ch.Size, ID: ch.ID})
+		}
+		return it
+	}()})
+	o.Class("op:index")
+	if c.IndexK < 0 {
+		// through the local index store onto a device that accepts no data
+		st, err := desync.NewLocalIndexStore("/dev")
+		if err != nil {
+			o.Desc = map[string]any{"op": "index", "skipped": err.Error()}
+			return o
+		}
+		err = st.StoreIndex("full", idx)
+		o.Class("index:dev-full")
+		if err == nil {
+			o.Fail("C06:index:write-failure-not-reported", "StoreIndex onto /dev/full (every write fails with ENOSPC) reported success for an index of %d bytes", len(full))
+		}
+		o.Nontrivial = true
+		o.Desc = map[string]any{"op": "index", "via": "LocalIndexStore(/dev/full)", "index_bytes": len(full)}
+		o.Key = fmt.Sprintf("index/devfull/%d", len(full))
+		return o
+	}
+	w := &failAfter{n: c.IndexK}
+	_, err := idx.WriteTo(w)
+	delivered := w.failed
+	switch {
+	case delivered && err == nil:
+		o.Fail("C06:index:write-failure-not-reported", "the index output failed after %d of %d bytes but Index.WriteTo returned nil", c.IndexK, len(full))
+	case !delivered && err != nil:
+		o.Fail("C06:index:error-without-fault", "Index.WriteTo failed although the output accepted everything: %v", err)
+	case !delivered && w.written != len(full):
+		o.Fail("C06:index:short-index", "Index.WriteTo returned nil after writing %d of %d bytes", w.written, len(full))
+	}
+	if delivered {
+		o.Class("index:write-fault-delivered")
+		if c.IndexK > len(full)-4096 {
+			o.Class("index:fault-in-last-buffered-part")
+		}
+	} else {
+		o.Class("index:complete")
+	}
+	o.Nontrivial = delivered
+	o.Desc = map[string]any{"op": "index", "index_bytes": len(full), "fail_after": c.IndexK, "delivered": delivered}
+	o.Key = fmt.Sprintf("index/%d/%d", len(full), c.IndexK)
+	return o
+}
